@@ -281,7 +281,32 @@ def replay_cv2(sc):
                                     f"textbook mean(Y - b*.(X - prices)) = {want!r} with b* = {b.tolist()}")
 
 
-def h_cv2(ctx, n):
+def replay_cv2_uncorrelated(sc):
+    """two controls whose samples are exactly uncorrelated (and each correlated with the payoff)"""
+    import numpy as _np
+
+    ss = [1.0, 2.0, 3.0, 4.0]
+
+    class _Und(UND.Spot):
+        pass
+
+    # controls as functions of the spot: X1 = (+1,-1,-1,+1)-pattern, X2 = (+1,+1,-1,-1)-pattern through piecewise payoffs is not available;
+    # use forward controls on two scripted spot components instead: the scripted process hands out (s, x1, x2) and the controls read x1 / x2
+    x1 = [1.0, -1.0, 1.0, -1.0]
+    x2 = [1.0, 1.0, -1.0, -1.0]
+    y = [2.0 + 0.5 * a + 0.25 * b for a, b in zip(x1, x2)]
+    X = _np.array([x1, x2])
+    Y = _np.array(y)
+    got = PROD.ControlVariates.helper_compute_coefficients(x=X.T.copy(), y=Y.copy(), prices=_np.array([0.3, -0.2]))
+    c = _np.cov(X, Y, bias=True)
+    b = _np.linalg.inv(c[:2, :2]) @ c[:2, 2]
+    want = Y - b @ (X - _np.array([0.3, -0.2])[:, None])
+    bad = not _np.allclose(got, want, atol=1e-12)
+    return bad, (f"helper_compute_coefficients on exactly uncorrelated controls X1={x1}, X2={x2} (sample covariance 0), Y={y}, prices (0.3, -0.2): adjusted samples "
+                 f"{_np.asarray(got).tolist()} vs Y - b*.(X - prices) = {want.tolist()} with b* = {b.tolist()}")
+
+
+def h_cv2(ctx, n, uncorrelated=False):
     """two controls (forward and call, both with a notional) with plain-float prices.  Compositional: (a) the covariance matrix the
     library computes equals the textbook biased sample covariances entry by entry; (b) with the matrix replaced by fresh symbols
     sigma_ij (any symmetric matrix the library does not switch off), the reported price is my - b*.(mx - prices), b* = Sigma_X^-1 Sigma_XY."""
@@ -297,8 +322,8 @@ def h_cv2(ctx, n):
     k0 = ctx.real("k0")
     ctx.fork_max = True  # one path per in/out-of-the-money pattern: every obligation is a polynomial identity
     eng, prod, proc = make(ctx, n, [k0], notional, df, cv=cv, concrete=spots)
-    rp = (replay_cv2, lambda m: {"n": max(n, 4)})
-    info = {"n": n, "controls": 2}
+    rp = (replay_cv2, lambda m: {"n": max(n, 4)}) if not uncorrelated else (replay_cv2_uncorrelated, lambda m: {})
+    info = {"n": n, "controls": 2, "uncorrelated": uncorrelated}
     Y = [df * notional * shims._smax_fork(s - k0, 0.0) for s in spots]
     X1 = [df * (s - k1) for s in spots]
     X2 = [df * n2 * shims._smax_fork(s - k2, 0.0) for s in spots]
@@ -318,8 +343,12 @@ def h_cv2(ctx, n):
         for i in range(3):
             for j in range(i, 3):
                 S[i, j] = S[j, i] = sig.setdefault((i, j), ctx.real(f"sigma{i}{j}"))
-        eps = Fraction(1, 10**6)  # the library switches the controls off when an entry of Sigma_X is below 1e-12 in absolute value
-        ctx.assume(AND(S[0, 0] > eps, S[1, 1] > eps, OR(S[0, 1] > eps, S[0, 1] < -eps), S[0, 0] * S[1, 1] - S[0, 1] * S[0, 1] > eps))
+        eps = Fraction(1, 10**6)  # a control of (numerically) zero variance cannot be used: the library switches the controls off below 1e-12
+        if uncorrelated:
+            S[0, 1] = S[1, 0] = 0.0  # the two controls have zero sample covariance: Sigma_X is diagonal and perfectly invertible
+            ctx.assume(AND(S[0, 0] > eps, S[1, 1] > eps))
+        else:
+            ctx.assume(AND(S[0, 0] > eps, S[1, 1] > eps, OR(S[0, 1] > eps, S[0, 1] < -eps), S[0, 0] * S[1, 1] - S[0, 1] * S[0, 1] > eps))
         return S
 
     npx.cov = cov_hook
@@ -330,7 +359,7 @@ def h_cv2(ctx, n):
     adj = stats.price()
     my = mean(Y)
     ctx.prove("C07.cv.raw_price_unchanged", EQ(stats.price(no_control_variates=True), my), info=info, replay=rp)
-    s11, s12, s22, s1y, s2y = sig[(0, 0)], sig[(0, 1)], sig[(1, 1)], sig[(0, 2)], sig[(1, 2)]
+    s11, s12, s22, s1y, s2y = sig[(0, 0)], (0.0 if uncorrelated else sig[(0, 1)]), sig[(1, 1)], sig[(0, 2)], sig[(1, 2)]
     det = s11 * s22 - s12 * s12
     # b* = Sigma_X^-1 Sigma_XY (Cramer): adjusted mean = my - b1 (mx1 - p1) - b2 (mx2 - p2)
     b1n, b2n = s22 * s1y - s12 * s2y, s11 * s2y - s12 * s1y
@@ -398,6 +427,7 @@ def harnesses(tier):
         hs.append(Harness(f"cv1.N{n}", h_cv_comp, {"n": n}, max_paths=4000, timeout_ms=60000))
     for n in ((3,) if q else (3, 4)):
         hs.append(Harness(f"cv2.N{n}", h_cv2, {"n": n}, max_paths=2000, timeout_ms=120000))
+    hs.append(Harness("cv2.uncorrelated.N3", h_cv2, {"n": 3, "uncorrelated": True}, max_paths=2000, timeout_ms=120000))
     for n in ((1, 2) if q else (1, 2, 3)):
         hs.append(Harness(f"twice.N{n}", h_twice, {"n": n}, max_paths=2000))
     hs.append(Harness("twin", h_twin, twin="must_fail"))
